@@ -264,3 +264,52 @@ func VerifRingRefreshRealScores() {
 	w.check(ra, rb, d)
 	verif.Assert("members-are-the-current-hosts", stringset.Equal(ra.Members(), w.ca.Resolve()))
 }
+
+// verifGHealthOnly is the body of the health-only Refresh harnesses: the rings
+// start with an arbitrary (symbolic) health view, then the membership stays
+// exactly as it is while every member's health bit is redrawn independently
+// (so a member may recover while another one fails: same number of healthy
+// hosts, different set), then Refresh, and the statement's rule must hold for
+// the *new* health view -- and equal what a ring built afresh from the same
+// membership and health view computes.
+func verifGHealthOnly(w *verifGWorld, d core.Digest, check func(ra, rb Ring)) {
+	w.drawHealth() // health view H1 at start-up
+	nBefore := 0
+	before := make([]bool, len(w.healthy))
+	for i := range w.healthy {
+		before[i] = w.healthy[i]
+		if w.healthy[i] {
+			nBefore++
+		}
+	}
+	ra := New(Config{MaxReplica: w.maxReplica}, w.ca, w.filter, tally.NoopScope)
+	w.drawHealth() // health view H2; membership unchanged
+	nAfter, changed := 0, false
+	for i := range w.healthy {
+		if w.healthy[i] {
+			nAfter++
+		}
+		if w.healthy[i] != before[i] {
+			changed = true
+		}
+	}
+	ra.Refresh()
+	// the reference: a process that starts now with the same membership (found
+	// in another order) and the same health view.
+	rb := New(Config{MaxReplica: w.maxReplica}, w.cb, w.filter, tally.NoopScope)
+	verif.Cover("health-swapped-same-count", changed && nBefore == nAfter)
+	verif.Cover("health-count-changed", nBefore != nAfter)
+	verif.Cover("health-unchanged", !changed)
+	check(ra, rb)
+}
+
+// VerifRingRefreshHealthOnlyRealScores: health changes between two refreshes
+// with the membership unchanged (real scores, a few digests).
+func VerifRingRefreshHealthOnlyRealScores() {
+	nhosts := verif.Bound("hosts_health", 3, 4)
+	w := verifGSetup(nhosts, false)
+	ndig := verif.Bound("digests_health", 2, len(verifGDigests))
+	d, err := core.NewSHA256DigestFromHex(verifGDigests[verif.Choice("digest", ndig)])
+	verif.Assume(err == nil)
+	verifGHealthOnly(w, d, func(ra, rb Ring) { w.check(ra, rb, d) })
+}
